@@ -37,6 +37,8 @@ def run(ctx) -> None:
     ctx.rule("R7", "prerequisite: BUILD is advanced on every bump, never reset, stays a string (C17/R1-R3)")
     ctx.rule("R9", "a part not addressed by a flag is unchanged: every increment / pin flag is off unless given (click declarations)")
     shapes.cli_option_rule(ctx, "R9", ["--major", "--minor", "--patch", "--tag-num", "--pin-increments", "--pin-date", "--tag", "--date", "--set-version"])
+    ctx.rule("R10", "calendar parts 'taken from the given date': an unusable --date (or --date together with --pin-date) is fatal, not merely logged")
+    shapes.errors_are_fatal(ctx, "R10", "cli._validate_date", 2)
     ctx.rule("R8", "calendar parts 'taken from the given date': both calendar producers bind each field to its strftime directive, quarter = ((month-1)//3)+1")
     from sa.report import run_prerequisite
     run_prerequisite(ctx, "C17", ("R1", "R2", "R3"), "R7")
